@@ -8,6 +8,7 @@ import (
 
 	"github.com/dgraph-io/badger/v3"
 	"github.com/wrgl/wrgl/pkg/objects"
+	"github.com/wrgl/wrgl/pkg/vhook"
 )
 
 type Store struct {
@@ -37,12 +38,14 @@ func (s *Store) Get(k []byte) ([]byte, error) {
 }
 
 func (s *Store) Set(k, v []byte) error {
+	vhook.Write("obj", "set", k)
 	return s.db.Update(func(txn *badger.Txn) error {
 		return txn.Set(k, v)
 	})
 }
 
 func (s *Store) Delete(k []byte) error {
+	vhook.Write("obj", "del", k)
 	return s.db.Update(func(txn *badger.Txn) error {
 		return txn.Delete(k)
 	})
@@ -93,6 +96,7 @@ func (s *Store) FilterKey(prefix []byte) (keys [][]byte, err error) {
 }
 
 func (s *Store) Clear(prefix []byte) error {
+	vhook.Write("obj", "clear", prefix)
 	return s.db.DropPrefix(prefix)
 }
 
